@@ -2122,46 +2122,62 @@ impl Compiler {
             }
         }
 
-        // Emit parameter property assignments: this.x = x
-        // These happen before instance field initializers
-        for (prop_name, value_reg, needs_free) in &param_properties {
-            let this_reg = func_compiler.builder.alloc_register()?;
-            func_compiler.builder.emit(Op::LoadThis { dst: this_reg });
-            let prop_idx = func_compiler.builder.add_string(prop_name.cheap_clone())?;
-            func_compiler.builder.emit(Op::SetPropertyConst {
-                obj: this_reg,
-                key: prop_idx,
-                value: *value_reg,
-            });
-            func_compiler.builder.free_register(this_reg);
-            // Free registers allocated for default values after they've been used
-            if *needs_free {
-                func_compiler.builder.free_register(*value_reg);
+        // Parameter properties (this.x = x), instance field initializers, private fields and
+        // private methods, in that order. In a base class they run before the constructor
+        // body; in a derived class they run right after the super() call, so that they see
+        // (and are not overwritten by) what the base constructor and its fields set up.
+        let emit_instance_initializers = |fc: &mut Compiler| -> Result<(), JsError> {
+            for (prop_name, value_reg, needs_free) in &param_properties {
+                let this_reg = fc.builder.alloc_register()?;
+                fc.builder.emit(Op::LoadThis { dst: this_reg });
+                let prop_idx = fc.builder.add_string(prop_name.cheap_clone())?;
+                fc.builder.emit(Op::SetPropertyConst {
+                    obj: this_reg,
+                    key: prop_idx,
+                    value: *value_reg,
+                });
+                fc.builder.free_register(this_reg);
+                // Free registers allocated for default values after they've been used
+                if *needs_free {
+                    fc.builder.free_register(*value_reg);
+                }
             }
-        }
 
-        // Compile instance field initializers at the start of constructor
-        // These run before the user's constructor body (after super() call if extending)
-        for field in instance_fields {
-            func_compiler.compile_instance_field_initializer(field)?;
-        }
+            for field in instance_fields {
+                fc.compile_instance_field_initializer(field)?;
+            }
 
-        // Initialize instance private fields
-        for field in instance_private_fields {
-            func_compiler.compile_instance_private_field_initializer(field, class_brand)?;
-        }
+            // Initialize instance private fields
+            for field in instance_private_fields {
+                fc.compile_instance_private_field_initializer(field, class_brand)?;
+            }
 
-        // Install instance private methods on 'this'
-        for method in instance_private_methods {
-            func_compiler.compile_instance_private_method_initializer(method, class_brand)?;
+            // Install instance private methods on 'this'
+            for method in instance_private_methods {
+                fc.compile_instance_private_method_initializer(method, class_brand)?;
+            }
+            Ok(())
+        };
+
+        // The top-level `super(...)` statement of a derived class constructor, if any
+        let super_call_at = ctor.body.body.iter().position(|stmt| {
+            matches!(stmt, Statement::Expression(expr_stmt)
+                if matches!(expr_stmt.expression.as_ref(), crate::ast::Expression::Call(call)
+                    if matches!(call.callee.as_ref(), crate::ast::Expression::Super(_))))
+        });
+        if super_call_at.is_none() {
+            emit_instance_initializers(&mut func_compiler)?;
         }
 
         // Hoist var declarations in constructor body
         func_compiler.emit_hoisted_declarations(&ctor.body.body)?;
 
         // Compile constructor body
-        for stmt in ctor.body.body.iter() {
+        for (index, stmt) in ctor.body.body.iter().enumerate() {
             func_compiler.compile_statement_impl(stmt)?;
+            if Some(index) == super_call_at {
+                emit_instance_initializers(&mut func_compiler)?;
+            }
         }
 
         // Return this implicitly (constructor returns `this`)
